@@ -5,6 +5,19 @@ From CV Require Import Base.Num Base.RNum C03.ResumeModel C03.ResumeProofs C06.R
 Import ListNotations.
 Local Open Scope Z_scope.
 
+(* ------------------------------------------------------------------------------------------------ module schedule *)
+(* at the re-executed step the trajectory line is written again (same flag); the periodic state file is not
+   (it is the one that was just loaded); afterwards both schedules are those of the uninterrupted run *)
+Theorem module_resumable :
+  resumable module_machine (fun _ => True) (fun _ _ => True) (fun _ _ _ => True)
+            (fun o o' => fst o = fst o') eq eq.
+Proof.
+  constructor; cbn [m_init m_step m_save m_after_save m_load module_machine fst snd]; auto.
+  intros c s s' it rel rel' i _ _ Hr Hr'. split; auto.
+  replace (0 <? rel) with true by (symmetry; apply Z.ltb_lt; lia).
+  replace (0 <? rel') with true by (symmetry; apply Z.ltb_lt; lia). reflexivity.
+Qed.
+
 (* ------------------------------------------------------------------------------------------------ histogram *)
 Section Histogram.
   Context {T : Type} (O : NumOps T).
